@@ -4,6 +4,7 @@ from contracts import formulas as FO
 from contracts import core as K
 from contracts import grammar as G
 from contracts import nsf as N
+from contracts import mixtures as MX
 ID = "C10"
 LEVEL = "other"
 TRUSTED = ["events run on CPython itself in fresh interpreters", "digests as in C09, computed for the public and two private tables",
@@ -21,7 +22,7 @@ EXPLANATION = ("Closed step obligations (eval): for each of the nine property mo
 def units(tier):
     # the functions that carry a table through the formula layer: which table an atom is taken from is a value-level
     # question and is under contract; the loader protocol itself is not (see EXPLANATION)
-    return [W.U_FORMULA_CHANGE_TABLE, K.U_CHANGE_TABLE] + G.U_PARSE_FORMULA + K.U_TABLE_ISOTOPE + [K.U_SYMBOL] + K.U_GET_TABLE + K.U_MAKE + [FO.U_CHANGE_TABLE_STRUCT, FO.U_CHANGE_TABLE_ATOM]
+    return ([W.U_FORMULA_CHANGE_TABLE, K.U_CHANGE_TABLE] + G.U_PARSE_FORMULA + K.U_TABLE_ISOTOPE + [K.U_SYMBOL] + K.U_GET_TABLE + K.U_MAKE + [FO.U_CHANGE_TABLE_STRUCT, FO.U_CHANGE_TABLE_ATOM]) + MX.U_MIX_WRAPPERS
 
 
 def runner_tasks(tier):
